@@ -534,6 +534,10 @@ class Interp:
             return VStr('0123456789', 's')
         if mod == 'os' and name in ('path', 'environ'):
             return VModule('os.' + name)
+        if mod == 'os' and name == 'defpath':
+            return VStr(':/bin:/usr/bin', 's')
+        if mod == 'os' and name == 'pathsep':
+            return VStr(':', 's')
         if mod in self.prog.modules:
             if q in self.prog.classes:
                 return VClass(q)
